@@ -256,19 +256,71 @@ def _defrag_row(ex, st, k):
         for s in stores:
             arg = s.args[0]
             goal = z3.And(goal, z3.BoolVal(isinstance(arg, VSeq) and getattr(arg, 'keep', None) is not None and len(stores) == 1))
+    # a row from which tiles were copied marks the new bundle as non-empty (it must then replace the old one)
+    if stores:
+        goal = z3.And(goal, ex.truth(st, st.env['stored_tiles']))
+    # the tiles found in the row are stored exactly when there are any
+    goal = z3.And(goal, ex.truth(st, st.env['tiles']) == z3.BoolVal(len(stores) == 1))
     yield ('row_copies_all_128_columns', goal,
            'each row: the 128 addresses (0..127, y) are bulk-loaded from the old bundle and those found are stored into the new one')
+
+
+def _defrag_swap(ex, st, k):
+    """one bundle: nothing is touched when it is skipped or in a dry run; otherwise the old files are removed and - if any tile
+    was copied - the temporary bundle is renamed INTO the old name (source and destination in that order)"""
+    import z3
+    from pyvc.values import eq, VStr
+    evs_ = st.trace[getattr(st, 'iter_start_trace', 0):]
+    rm = [(i, e) for i, e in enumerate(evs_) if e.name == 'remove']
+    rn = [(i, e) for i, e in enumerate(evs_) if e.name == 'rename']
+    mk = [e for e in evs_ if e.name == 'bundle_class']
+    bf = st.env['bundle_file']
+    touched = bool(rm or rn or len(mk) > 1)
+    skipped = z3.Or(ex.truth(st, st.env['skip']), ex.truth(st, st.env['dry_run'])) if 'skip' in st.env else z3.BoolVal(False)
+    goal = z3.Implies(skipped, z3.BoolVal(not touched))
+    if 'stored_tiles' in st.env and 'skip' in st.env:
+        # tiles were copied into the new bundle => it is renamed into place (the old one is already removed at that point)
+        goal = z3.And(goal, z3.Implies(z3.And(z3.Not(skipped), ex.truth(st, st.env['stored_tiles'])), z3.BoolVal(len(rn) >= 1)))
+    for i, e in rn[:1]:
+        ok = len(e.args) == 2 and isinstance(e.args[0], VStr) and isinstance(e.args[1], VStr) and 'tmp_bundle' in st.env
+        goal = z3.And(goal, z3.BoolVal(bool(ok)), ex.truth(st, st.env['stored_tiles']) if 'stored_tiles' in st.env else z3.BoolVal(False))
+        if ok:
+            goal = z3.And(goal, e.args[0].t == z3.Concat(st.env['tmp_bundle'].t, z3.StringVal('.bundle')), eq(e.args[1], bf),
+                          # the old bundle was removed (if it existed) before the new one takes its name
+                          z3.BoolVal(all(j < i for j, r in rm)))
+    sp = st.fork()
+    sp.spec = True
+    sp.env = {'b': bf}
+    sibling = ex.ev1(sp, ex.reg.parse_spec("b[:-1] + 'x'"))
+    # v1 caches: the index file of the new bundle follows, into the index name of the old one
+    for i, e in rn[1:2]:
+        ok = len(e.args) == 2 and isinstance(e.args[0], VStr) and 'tmp_bundle' in st.env
+        goal = z3.And(goal, z3.BoolVal(bool(ok)))
+        if ok:
+            goal = z3.And(goal, e.args[0].t == z3.Concat(st.env['tmp_bundle'].t, z3.StringVal('.bundlx')), eq(e.args[1], sibling))
+    exs = [e for i_, e in enumerate(evs_) if e.name == 'exists' and isinstance(e.args[0], VStr) and 'tmp_bundle' in st.env
+           and rn and i_ > rn[0][0]]
+    for e in exs[:1]:
+        is_idx = e.args[0].t == z3.Concat(st.env['tmp_bundle'].t, z3.StringVal('.bundlx'))
+        goal = z3.And(goal, z3.Implies(z3.And(is_idx, ex.truth(st, e.result)), z3.BoolVal(len(rn) >= 2)))
+    goal = z3.And(goal, z3.BoolVal(len(rn) <= 2))
+    for j, r in rm:
+        # only the old bundle and its index file are ever removed
+        goal = z3.And(goal, z3.Or(eq(r.args[0], bf), eq(r.args[0], sibling)))
+    yield ('defrag_swaps_new_bundle_into_place', goal,
+           'skip / dry run: no file operation; otherwise os.remove(bundle_file) first and then, if tiles were copied, '
+           "os.rename(tmp_bundle + '.bundle', bundle_file)")
 
 
 contract('mapproxy.script.defrag:defrag_compact_cache', props=['C19'],
          types=dict(cache='opaque', min_percent='real', min_bytes='int', log_progress='opt[opaque]', dry_run='bool'),
          returns='none', default_callee='opaque',
-         opaque_fields={'coord': 'opt[tuple[int,int,int]]', 'source': 'opt[opaque]'}, stable_fields=['coord'],
+         opaque_fields={'coord': 'opt[tuple[int,int,int]]', 'source': 'opt[opaque]', 'cache_dir': 'str'}, stable_fields=['coord', 'cache_dir'],
          opaque_spec={'glob': {'returns': 'list[str]', 'pure': True}, 'bundle_offset': {'pure': True}, 'bundle_class': {'pure': True},
                       'size': {'returns': 'tuple[int,int]', 'pure': True}, 'Tile': {'fields': {'coord': 'arg0'}, 'pure': True},
                       'load_tiles': {}, 'store_tiles': {}, 'exists': {'returns': 'bool', 'pure': True}, 'rstrip': {'pure': True}},
          raises={'ZeroDivisionError': True},
-         loops={0: dict(inv=[], types={'stored_tiles': 'bool'}),
+         loops={0: dict(inv=[], types={'stored_tiles': 'bool'}, body_trace=[_defrag_swap]),
                 1: dict(inv=['len(_seq) == 128'], types={'stored_tiles': 'bool', 'tiles': 'opaque'}, body_trace=[_defrag_row])})
 
 
